@@ -259,7 +259,21 @@ fn rewrite_case(u: &mut Choices, sz: Size) -> CaseResult {
             (vec![], Vars::default())
         };
         g.wide = false;
-        let body = g.gen_cnf(u, res_ctx.as_ref(), 1, &lv, RefCtx::Inner);
+        let mut body = g.gen_cnf(u, res_ctx.as_ref(), 1, &lv, RefCtx::Inner);
+        // every query variable is used: compared with the value it selects in the first resource of
+        // the type (so the clause holds there and, often, not in the next resource)
+        for l in &lets {
+            if let Expr::Query { q: Query { head: Head::Key(k), parts }, .. } = &l.value {
+                let mut ps = vec![Part::Key(k.clone())];
+                ps.extend(parts.iter().filter(|p| !matches!(p, Part::Filter(_))).cloned());
+                let sel = res_ctx.as_ref().and_then(|c| sample_ctx(c, &ps));
+                let cl = match sel {
+                    Some(v) if v.is_scalar() && v_expressible(&v) && !matches!(v, V::Float(_)) => cl_bin(Query { head: Head::Var(l.name.clone()), parts: vec![] }, BinOp::Eq, false, Lit::V(v)),
+                    _ => cl_un(Query { head: Head::Var(l.name.clone()), parts: vec![] }, UnOp::Exists, false),
+                };
+                body.push(vec![Item::Clause(cl)]);
+            }
+        }
         let when = if u.chance(1, 3) { Some(g.gen_cond(u, Some(&doc), 0, &Vars::default())) } else { None };
         let tb = Item::TypeBlock { ty: ty.clone(), when: when.clone(), lets: lets.clone(), body: body.clone() };
         let q = Query {
